@@ -33,9 +33,9 @@ PID = "C12"
 LEVEL = "fault_enumeration"
 ENGINE = "ctxsim"
 CHUNK = 2
-N_KINDS = 16
+N_KINDS = 17
 GEN_TAKES_INDEX = True
-N_CATALOGUE = 48
+N_CATALOGUE = 51
 REACH = ['mode:catalogue', 'mode:random', 'mode:insertion', 'fault_fired:module.body', 'fault_fired:tc.decorate', 'fault_fired:stdout.write', 'fault_fired:node.flatten', 'inserted_inside_live_context']  # counters (prefixes) that a healthy batch makes non-zero; gaps are reported in the evidence
 BUDGET = {"quick": 45, "thorough": 600}
 RULE = (
@@ -64,7 +64,7 @@ COMPONENTS = {"real": ["jaxtyping", "typeguard", "beartype", "importlib (hook op
 _DIR = None
 _ORIG_CFS = _be.cache_from_source
 KIND_NAMES = ["arr-top", "arr-ctx", "tree-top", "tree-ctx", "call-new", "call-old", "call-none", "call-dc", "decorate",
-              "decorate-gen-old", "decorate-gen-new", "pickle", "hook", "obs-failing-stdout", "tree-nested", "tree-union"]
+              "decorate-gen-old", "decorate-gen-new", "pickle", "hook", "obs-failing-stdout", "tree-nested", "tree-union", "ctx-object-reentered"]
 
 
 def worker_init():
@@ -217,6 +217,10 @@ def _op_of_kind(kind, r, g, pref, fns):
         return [tree("arr", r.choice(("T", None)), nested=True)]
     if name == "tree-union":
         return [tree(r.choice(("union", "tuple")), r.choice(("T", None)), node_ok=False)]
+    if name == "ctx-object-reentered":
+        # the program keeps one `ctx = jaxtyped("context")` object and enters it again while it is already entered
+        inner = {"op": "ctx", "obj": "o1", "body": [arr(p_bad=0.0)], "exit": "ret" if r.random() < 0.6 else ["raise", "ValueError"]}
+        return [{"op": "ctx", "obj": "o1", "body": [arr(p_bad=0.0), inner, arr(at="mduck")], "exit": "ret"}]
     raise ValueError(name)
 
 
